@@ -7,7 +7,7 @@ ID = "C05"
 SWITCH_OFF = 6        # every 6th case runs with xfab.CHECKS switched off (results must not depend on it)
 RULE = ("one unit per space-group setting (all 237 in every run); per setting Hypothesis draws a conforming cell (25% with "
         "orthogonal metric where the system allows obliqueness), a shell whose bounds are mid-gap between consecutive distinct "
-        "sin(theta)/lambda values of the enumerated reciprocal lattice (<= ~1500 points in the sphere), smin 0 or mid-gap, call "
+        "sin(theta)/lambda values of the enumerated reciprocal lattice (<= ~1500 points in the sphere; one case in ten up to 12000 / 40000 points; one case in five with one axis 20-200x longer or shorter than the others, i.e. indices of 100-250; two cases in seven with the cell rounded to whole numbers and typed as ints), smin 0 or mid-gap, call "
         "by number or by a case/blank variant of the name, two numpy RNG seeds, module tools/laue. Oracle: brute-force lattice "
         "enumeration with the metric tensor minus operator-extinct reflections (exact integer arithmetic). Non-trivial = at "
         "least one lattice point in the shell is extinct, or the cell is oblique, or smin > 0")
